@@ -132,7 +132,7 @@ impl Prop for C14 {
 		]
 	}
 	fn expected_probes(&self) -> Vec<&'static str> {
-		vec!["caller_failure_err_fired", "caller_failure_wrong_type_fired", "caller_failure_missing_field_fired", "caller_failure_duplicate_field_fired", "caller_failure_abandoned_sequence_fired", "sink_hard_error_fired", "failure_inside_nested_record_with_out_of_order_presentation", "failure_with_buffered_byte_sequences_in_play"]
+		vec!["long_history", "caller_failure_err_fired", "caller_failure_wrong_type_fired", "caller_failure_missing_field_fired", "caller_failure_duplicate_field_fired", "caller_failure_abandoned_sequence_fired", "sink_hard_error_fired", "failure_inside_nested_record_with_out_of_order_presentation", "failure_with_buffered_byte_sequences_in_play"]
 	}
 	fn budget(&self, tier: Tier) -> (u64, u64) {
 		match tier {
